@@ -65,6 +65,16 @@
 (*   ConvertInPlace  the any schema converts the items of a []any in the   *)
 (*                   caller's own slice (int -> int64, ...), also when the *)
 (*                   call is rejected                                      *)
+(*   HideRestore     one-of Validate / Serialize / data-mode compatibility *)
+(*                   take the discriminator out of the CALLER'S map while  *)
+(*                   the member works and put it back afterwards: invisible*)
+(*                   to one call, but a second call on the same value      *)
+(*                   meanwhile finds no discriminator (and the map is      *)
+(*                   raced)                                                *)
+(*   EarlyExitWalk   object compatibility walks the properties once and    *)
+(*                   stops when every given field was matched: whether a   *)
+(*                   missing required property is noticed depends on the   *)
+(*                   iteration order                                       *)
 (*   NoStepMutex     setupStepData without initializerMutex (step.go 201)  *)
 (*   EnumEarlyReturn enum compatibility returns at the first matching key  *)
 (*                   (enum.go 53-97 before its repair)                     *)
@@ -73,6 +83,11 @@
 (* default of the property (what the code does), FALSE = they only fill    *)
 (* what the declared default leaves open.                                  *)
 (*                                                                         *)
+(* SHARED INPUT is a dimension of the model (inst.shared): the goroutines   *)
+(* then pass ONE caller-owned value to their calls, as callers may - an    *)
+(* argument is read-only state that no action may change while a call is   *)
+(* in progress (InputStable).                                              *)
+(*                                                                         *)
 (* Values are flat: a map value is a function from the global path set P   *)
 (* to integers, Absent = -1 ("n", "t" properties of the root object; "sa", *)
 (* "sb" the properties a, b of the by-value sub-object s).                 *)
@@ -80,10 +95,10 @@
 EXTENDS Integers, Sequences, FiniteSets, TLC
 
 CONSTANTS G, MaxCalls, Kinds, Origins,
-          AliasDefaults, LazyUnsync, CollideEither, StripInPlace, StripRestore, DirtyScratch, SharedMarks, SharedInProgress, StaleMemo, SharedError, SortInPlace, ConvertInPlace, NoStepMutex,
+          AliasDefaults, LazyUnsync, CollideEither, StripInPlace, StripRestore, DirtyScratch, SharedMarks, SharedInProgress, StaleMemo, SharedError, SortInPlace, ConvertInPlace, HideRestore, EarlyExitWalk, NoStepMutex,
           EnumEarlyReturn, SubOverride
 
-VARIABLES inst,          \* [kind, origin]
+VARIABLES inst,          \* [kind, origin, shared]
           phase,         \* "build" (single-threaded construction / ApplySelf) | "serve"
           link,          \* link[ref] \in {"unlinked"} \cup Objs          (ref.go referencedObjectCache)
           defaultsCache, \* defaultsCache[obj] \in {Unbuilt} \cup [st |-> "built", m |-> flat map]
@@ -98,7 +113,8 @@ VARIABLES inst,          \* [kind, origin]
                          \* always {} in the design the property demands
           mutex,         \* holder of each lock (0 = free)
           descr,         \* the self-description (derived from immutable fields)
-          argmem,        \* argmem[g]: the caller-owned argument map while a call is in flight
+          argmem,        \* argmem[g]: the caller-owned argument map while a call is in flight (one cell for
+                         \* all goroutines when the input is shared)
           pc, cur, loc,  \* per goroutine: program counter, current call, locals
           ncalls,
           hist           \* completed calls, in completion order
@@ -194,6 +210,12 @@ Ops(kind) ==
            {Call("unser", Arg("empty", Empty)), Call("unser", Arg("n1", Flat(1, Absent, Absent, Absent))),
             Call("unser", Arg("s_a1", Flat(Absent, Absent, 1, Absent))), Call("unser", Arg("bad", Empty)),
             Call("ser", Arg("full", Flat(1, Absent, 1, 1)))}
+      [] kind = "objreq" ->
+           \* root{a: REQUIRED, b, c, d, e}: compatibility with an argument that leaves a out but supplies another
+           \* valid field - as a map of values, as a map of property schemas, as another object schema of that ID
+           {Call("compat", Arg(t, Empty)) : t \in {"data_partial", "data_full", "props_partial", "schema_partial",
+                                                    "schema_full"}}
+           \cup {Call("unser", Arg("data_partial", Empty)), Call("unser", Arg("data_full", Empty))}
       [] kind = "anylist" ->
            \* an any schema (or an any-typed property) given a []any whose items are not in canonical form
            {Call(op, Arg("list_mixed", Flat(1, Absent, Absent, Absent))) : op \in {"unser", "valid", "ser"}}
@@ -225,7 +247,8 @@ Ops(kind) ==
            \* path "t" stands for the discriminator field of the caller's map
            {Call("unser", Arg("member_a", Flat(1, 1, Absent, Absent))),
             Call("unser", Arg("nodisc", Empty)), Call("ser", Arg("member_a", Flat(1, 1, Absent, Absent))),
-            Call("valid", Arg("member_a", Flat(1, 1, Absent, Absent)))}
+            Call("valid", Arg("member_a", Flat(1, 1, Absent, Absent))),
+            Call("compat", Arg("member_a", Flat(1, 1, Absent, Absent)))}         \* data-mode compatibility
            \* a value the selected member rejects (its property n is at most CMax)
            \cup {Call(op, Arg("member_a_bad", Flat(100, 1, Absent, Absent))) : op \in {"valid", "ser", "unser"}}
       [] kind = "enum" ->
@@ -237,7 +260,7 @@ Ops(kind) ==
 
 \* the order in which the runtime iterates a two-element map: 1 = (first, second), 2 = (second, first);
 \* only the kinds whose code ranges over a map of the argument / of the compared schema have the choice
-Orders(kind) == IF kind \in {"mapcoll", "enum"} THEN {1, 2} ELSE {1}
+Orders(kind) == IF kind \in {"mapcoll", "enum", "objreq"} THEN {1, 2} ELSE {1}
 
 \* ------------------------------------------------------------------ Pure: the required result
 \* The set of results the property admits for (schema, op, arg).  A singleton except where the
@@ -271,6 +294,8 @@ PureSet(i, op, arg) ==
            (CASE arg.tok = "collide" -> {Res(TRUE, Empty, 1), Res(TRUE, Empty, 2), Res(FALSE, Empty, 0)}
               [] arg.tok = "single" -> {Res(TRUE, Empty, 1)}
               [] OTHER -> {Res(FALSE, Empty, 0)})
+      [] k = "objreq" ->
+           (IF arg.tok \in {"data_full", "schema_full"} THEN {Res(TRUE, Empty, 0)} ELSE {Res(FALSE, Empty, 0)})
       [] k = "anylist" ->
            (IF arg.tok = "list_bad" THEN {Res(FALSE, Empty, 0)} ELSE {Res(TRUE, Empty, 0)})
       [] k = "disabled" ->
@@ -316,7 +341,9 @@ Init ==
     /\ \E k \in Kinds : \E o \in Origins :
           /\ (o = "global" => k \in UnitKinds)              \* package-level values: the unit definitions
           /\ (k = "steps" => o = "fresh")
-          /\ inst = [kind |-> k, origin |-> o]
+          \* shared input: explored where a call may write to what the caller handed in
+          /\ \E sh \in (IF k = "oneof" /\ Cardinality(G) > 1 THEN BOOLEAN ELSE {FALSE}) :
+                inst = [kind |-> k, origin |-> o, shared |-> sh]
     /\ phase = IF inst.origin = "rebuilt" /\ HasSub(inst.kind) THEN "build" ELSE "serve"
     /\ link = [r \in Refs |-> IF inst.origin = "rebuilt" THEN "unlinked" ELSE "inner"]
     /\ defaultsCache = InitialCaches(inst)
@@ -343,6 +370,9 @@ ObjOf(label) == IF label \in {"I1", "I2", "I3", "IL", "IU"} THEN "inner" ELSE "r
 \* the caller supplied the sub-object s
 SPresent(g) == \E p \in SubPaths : cur[g].arg.m[p] # Absent
 
+\* the operations that work on the caller's map itself (Unserialize works on its own copy of the input)
+OnCallersMap(g) == cur[g].op # "unser"
+Hiding(g) == StripInPlace \/ StripRestore \/ (HideRestore /\ OnCallersMap(g))
 \* the access goroutine g performs with its next step
 Acc(g) ==
     CASE pc[g] = "P1"  -> Rd("unit.re")
@@ -367,6 +397,9 @@ Acc(g) ==
       [] pc[g] = "S3b" -> IF AliasDefaults THEN Wr("cell.s") ELSE NoAcc
       [] pc[g] = "S4"  -> IF AliasDefaults THEN Rd("cell.s") ELSE NoAcc
       [] pc[g] = "S5"  -> IF AliasDefaults /\ ~SPresent(g) THEN Rd("cell.s") ELSE NoAcc
+      [] pc[g] = "O0"  -> IF inst.shared THEN Rd("arg") ELSE NoAcc
+      [] pc[g] = "O1"  -> IF inst.shared /\ Hiding(g) THEN Wr("arg") ELSE NoAcc
+      [] pc[g] = "O2"  -> IF inst.shared /\ Hiding(g) THEN Wr("arg") ELSE NoAcc
       [] pc[g] = "E1"  -> IF SharedError THEN Wr("err.path") ELSE NoAcc
       [] pc[g] = "E2"  -> IF SharedError THEN Wr("err.path") ELSE NoAcc
       [] pc[g] = "W1"  -> IF SharedMarks THEN Rd(Lv[loc[g].pos]) ELSE NoAcc
@@ -402,6 +435,10 @@ Build ==
     /\ UNCHANGED <<inst, defaultsCache, cell, unitCache, table, initCount, scratch, mutex, descr, argmem, pc, cur, loc,
                    ncalls, hist>>
 
+\* the cell of argmem the call of g works on
+Cell(g) == IF inst.shared THEN CHOOSE h \in G : \A k \in G : h <= k ELSE g
+InFlight(g) == {h \in G \ {g} : pc[h] # "idle"}
+
 \* ------------------------------------------------------------------ a call begins
 Entry(c) ==
     CASE K \in UnitKinds /\ c.op = "unser" /\ c.arg.tok \in {"str_ok", "str_bad", "str_over", "list_over"} ->
@@ -413,7 +450,7 @@ Entry(c) ==
       [] K = "compat2" -> "Q1"
       [] K = "objnest" /\ (c.op = "unsermid" \/ c.arg.tok \in LimToks) -> "N3"
       [] K = "objnest" /\ NestStruct(inst) -> "N2"
-      [] K = "oneof" /\ c.arg.tok # "nodisc" -> "O1"
+      [] K = "oneof" -> "O0"
       [] K = "objdep" /\ c.op \in {"valid", "ser"} /\ inst.origin # "rebuilt" -> "V1"   \* validateStruct
       [] K = "objdep" -> "V0"                                                          \* the map forms
       [] K = "anylist" -> "A1"
@@ -423,9 +460,11 @@ Entry(c) ==
 Start(g) ==
     /\ At(g, "idle") /\ ncalls[g] < MaxCalls
     /\ \E c \in Ops(K) : \E ord \in Orders(K) :
+          \* a shared input is one value: the calls in flight were given the same one
+          /\ inst.shared => \A h \in InFlight(g) : cur[h].arg = c.arg
           /\ cur' = [cur EXCEPT ![g] = c]
           /\ loc' = [loc EXCEPT ![g] = [NoLoc EXCEPT !.ord = ord]]
-          /\ argmem' = [argmem EXCEPT ![g] = c.arg.m]
+          /\ argmem' = IF inst.shared /\ InFlight(g) # {} THEN argmem ELSE [argmem EXCEPT ![Cell(g)] = c.arg.m]
           /\ Goto(g, Entry(c))
     /\ UNCHANGED <<inst, phase, link, defaultsCache, cell, unitCache, table, initCount, scratch, mutex, descr, ncalls, hist>>
 
@@ -438,6 +477,10 @@ Stateless(c, ord) ==
       [] K = "enum" /\ c.op = "compat" /\ c.arg.tok = "extra" ->
              \* the producer's values are {shared, extra}; early return: accepted iff "shared" is met first
              IF EnumEarlyReturn /\ ord = 1 THEN Res(TRUE, Empty, 0) ELSE Res(FALSE, Empty, 0)
+      [] K = "objreq" /\ c.op = "compat" /\ c.arg.tok \in {"data_partial", "props_partial", "schema_partial"} ->
+             \* one walk over the properties, ended when the given field was matched: order 2 meets the given field
+             \* before the required one
+             IF EarlyExitWalk /\ ord = 2 THEN Res(TRUE, Empty, 0) ELSE Res(FALSE, Empty, 0)
       [] OTHER -> CHOOSE r \in PureSet(inst, c.op, c.arg) : TRUE
 
 Compute(g) ==
@@ -450,12 +493,12 @@ Compute(g) ==
 Return(g) ==
     /\ At(g, "ret")
     /\ hist' = Append(hist, [g |-> g, op |-> cur[g].op, arg |-> cur[g].arg, res |-> loc[g].res,
-                             argAfter |-> argmem[g]])
+                             argAfter |-> argmem[Cell(g)]])
     /\ ncalls' = [ncalls EXCEPT ![g] = @ + 1]
     /\ Goto(g, "idle")
     /\ cur' = [cur EXCEPT ![g] = NoCall]
     /\ loc' = [loc EXCEPT ![g] = NoLoc]
-    /\ argmem' = [argmem EXCEPT ![g] = Empty]
+    /\ argmem' = IF inst.shared THEN argmem ELSE [argmem EXCEPT ![g] = Empty]
     /\ UNCHANGED <<inst, phase, link, defaultsCache, cell, unitCache, table, initCount, scratch, mutex, descr>>
 
 \* ------------------------------------------------------------------ locks (repaired designs, step mutex)
@@ -620,21 +663,29 @@ SubOwn(g) ==
     /\ Goto(g, "R1") /\ UNCHANGED <<defaultsCache, cell>> /\ ObjFrame
 
 \* ------------------------------------------------------------------ one-of: strip the discriminator
+OneOfFrame == UNCHANGED <<inst, phase, link, defaultsCache, cell, unitCache, table, initCount, scratch, mutex, descr, cur,
+                          ncalls, hist>>
+\* O0: the member is selected by the discriminator found in the value (path "t" of the caller's map)
+OneOfSelect(g) ==
+    /\ At(g, "O0")
+    /\ IF argmem[Cell(g)]["t"] = Absent
+       THEN SetLoc(g, "res", Res(FALSE, Empty, 0)) /\ Goto(g, "ret")      \* "discriminator field missing"
+       ELSE UNCHANGED loc /\ Goto(g, "O1")
+    /\ UNCHANGED argmem /\ OneOfFrame
+\* O1: the member does not know the discriminator: the design the property demands hands it a clone without it
 OneOfStrip(g) ==
     /\ At(g, "O1")
-    \* the discriminator is path "t" of the caller's map in this model; the design the property demands works
-    \* on a clone
-    /\ argmem' = IF StripInPlace \/ StripRestore THEN [argmem EXCEPT ![g]["t"] = Absent] ELSE argmem
+    /\ argmem' = IF Hiding(g) THEN [argmem EXCEPT ![Cell(g)]["t"] = Absent] ELSE argmem
     /\ SetLoc(g, "res", CHOOSE r \in PureSet(inst, cur[g].op, cur[g].arg) : TRUE)
     /\ Goto(g, "O2")
-    /\ UNCHANGED <<inst, phase, link, defaultsCache, cell, unitCache, table, initCount, scratch, mutex, descr, cur, ncalls, hist>>
-\* the member has judged the stripped value
+    /\ OneOfFrame
+\* O2: the member has judged the value
 OneOfMemberDone(g) ==
     /\ At(g, "O2")
-    /\ argmem' = IF StripRestore /\ loc[g].res.ok THEN [argmem EXCEPT ![g]["t"] = cur[g].arg.m["t"]] ELSE argmem
+    /\ argmem' = IF (StripRestore /\ loc[g].res.ok) \/ (HideRestore /\ OnCallersMap(g) /\ ~StripInPlace /\ ~StripRestore)
+                 THEN [argmem EXCEPT ![Cell(g)]["t"] = cur[g].arg.m["t"]] ELSE argmem
     /\ Goto(g, "ret")
-    /\ UNCHANGED <<inst, phase, link, defaultsCache, cell, unitCache, table, initCount, scratch, mutex, descr, cur, loc,
-                   ncalls, hist>>
+    /\ UNCHANGED loc /\ OneOfFrame
 
 \* ------------------------------------------------------------------ per-call scratch: shorthand guard, comparison guard
 ScratchFrame == UNCHANGED <<inst, phase, link, defaultsCache, cell, unitCache, table, initCount, mutex, descr, argmem,
@@ -771,7 +822,7 @@ DepMap(g) ==
 AnyConvert(g) ==
     /\ At(g, "A1")
     \* DEVIATION: the converted item is written back into the caller's slice - also when a later item is refused
-    /\ argmem' = IF ConvertInPlace /\ cur[g].arg.m["n"] # Absent THEN [argmem EXCEPT ![g]["n"] = 2] ELSE argmem
+    /\ argmem' = IF ConvertInPlace /\ cur[g].arg.m["n"] # Absent THEN [argmem EXCEPT ![Cell(g)]["n"] = 2] ELSE argmem
     /\ SetLoc(g, "res", CHOOSE r \in PureSet(inst, cur[g].op, cur[g].arg) : TRUE)
     /\ Goto(g, "ret")
     /\ UNCHANGED <<inst, phase, link, defaultsCache, cell, unitCache, table, initCount, scratch, mutex, descr, cur, ncalls, hist>>
@@ -813,7 +864,7 @@ Step(g) ==
     \/ TopFill(g) \/ SubResolve(g) \/ SubTakeDefault(g)
     \/ SubPropagate(g, "S3a", "sa", "S3b") \/ SubPropagate(g, "S3b", "sb", "S4") \/ SubRead(g) \/ SubOwn(g)
     \* one-of, struct validation, steps
-    \/ OneOfStrip(g) \/ OneOfMemberDone(g) \/ ValidateStruct(g) \/ DepMap(g) \/ AnyConvert(g) \/ NestPropagate(g) \/ NestMid(g)
+    \/ OneOfSelect(g) \/ OneOfStrip(g) \/ OneOfMemberDone(g) \/ ValidateStruct(g) \/ DepMap(g) \/ AnyConvert(g) \/ NestPropagate(g) \/ NestMid(g)
     \/ ErrSegment(g, "E1", "E2", FALSE) \/ ErrSegment(g, "E2", "ret", TRUE)
     \/ WalkRead(g) \/ WalkMark(g) \/ WalkClear(g) \/ WalkDone(g)
     \/ CmpBegin(g, "Q1", "pair.root", "Q2", "Q1x") \/ CmpRootUnderWay(g)
@@ -835,6 +886,8 @@ CacheIntegrity ==
     /\ cell = Restrict(DeclRoot(K), SubPaths)
 DescribeUnchanged == descr = Describe(inst)
 ArgumentPreserved == \A i \in DOMAIN hist : hist[i].argAfter = hist[i].arg.m
+\* the caller's value is read-only while a call is in progress
+InputStable == \A g \in G : pc[g] # "idle" => argmem[Cell(g)] = cur[g].arg.m
 \* C13
 NoRace == ~Race
 InitOnce == \A r \in Runs : initCount[r] <= 1
